@@ -239,7 +239,8 @@ def subbuilder_request(repo, run, rule):
         made = []
         ev = _fde(repo)
         ev.constructors['SubBuilder'] = lambda *a, **k: made.append((a, k)) or Obj('sub', 'SubBuilder')
-        b = Obj('builder', 'Builder', stages=[], _current_file=None, _current_stage=cur)
+        from .common import builder_obj
+        b = builder_obj(repo, stages=[], _current_file=None, _current_stage=cur)
         try:
             r = ev.call(fi, b, ['inc'])
         except Unsupported as e:
@@ -1643,7 +1644,8 @@ def add_source_table(repo, run, rule):
                 for as_path in (False, True):
                     if as_path and (raw or oname != 'ok'):
                         continue
-                    b = Obj('builder', 'Builder', stages=[], _current_file=None, _default_safe_flag=True)
+                    from .common import builder_obj
+                    b = builder_obj(repo, stages=[], _current_file=None, _default_safe_flag=True)
                     log = []
 
                     def stub(n, recv, a, k, log=log):
@@ -2384,6 +2386,44 @@ def map_nodes_memo(repo, run, rule):
         run.violation(rule, mn, 'map_nodes memo', '; '.join(bad[:2]))
     else:
         run.ok(rule, mn, 'map_nodes: a node reached under two names is processed once and both names get the one result (2 rows)')
+
+
+def get_node_after_mutation_table(repo, run, rule):
+    """ComposedNode.ayns.get_node evaluated twice on the same tree object with a change of the tree in between (an intermediate
+    container replaced / a leaf replaced / a leaf removed): the second answer is what the child maps say NOW - the lookup walks the
+    tree each time, or whatever it remembers is validated along the whole path"""
+    fi = repo.func('ComposedNode.ayns.get_node')
+    bad = []
+    rows = 0
+    stubf = lambda n, recv, a_, k: ([] if not a_ or (len(a_) == 1 and a_[0] is None) else list(a_[0]) if len(a_) == 1 and isinstance(a_[0], (list, tuple)) else list(a_))     # noqa: E731
+    for change in ('intermediate container replaced', 'leaf replaced', 'leaf removed', 'nothing'):
+        x, y = node_obj('X', 'ConfigNode'), node_obj('Y', 'ConfigNode')
+        a = node_obj('a', 'ConfigDict', _children={'b': node_obj('B', 'ConfigDict', _children={'c': x})})
+        root = node_obj('root', 'ConfigDict', _children={'a': a})
+        path = ['a', 'b', 'c']
+        r1 = fde_guard(lambda: FDE(repo, stubs={'get_list_path'}, stub=stubf).call(fi, root, path))
+        if r1.raised or r1.ret is not x:
+            raise AnalysisError('%s: get_node on a three-level tree not evaluable (%s)' % (rule, r1.raised or r1.ret))
+        want = x
+        if change == 'intermediate container replaced':
+            a.f['_children']['b'] = node_obj('B2', 'ConfigDict', _children={'c': y})
+            want = y
+        elif change == 'leaf replaced':
+            a.f['_children']['b'].f['_children']['c'] = y
+            want = y
+        elif change == 'leaf removed':
+            del a.f['_children']['b'].f['_children']['c']
+            want = 'KeyError'
+        r2 = fde_guard(lambda: FDE(repo, stubs={'get_list_path'}, stub=stubf).call(fi, root, path))
+        rows += 1
+        got = r2.raised or r2.ret
+        if (want == 'KeyError' and r2.raised != 'KeyError') or (want != 'KeyError' and (r2.raised or r2.ret is not want)):
+            bad.append('get_node(a.b.c) after %s gives %s, expected %s: the answer of an earlier lookup is served although the tree has changed' % (change, getattr(got, 'name', got), getattr(want, 'name', want)))
+    run.table(rule, rows, 'get_node repeated after a change of the tree')
+    if bad:
+        run.violation(rule, fi, 'lookup after mutation', bad[0] + (' [%d rows]' % len(bad) if len(bad) > 1 else ''), witness=bad[:4])
+    else:
+        run.ok(rule, fi, 'get_node answers from the current child maps (%d rows)' % rows)
 
 
 def tag_spec(repo, run, rule, tags):
